@@ -1,9 +1,22 @@
 (* C10 — @join passages advance one section per join choice and merge back correctly.
-   Property theorems only (proofs: Proofs/EngineChoice.v, Proofs/EngineJump.v).  For every story, every
-   author-code oracle and every state. *)
+   Property theorems only (proofs: Proofs/EngineChoice.v, Proofs/EngineJump.v, Proofs/EngineJoin.v).  For every
+   story, every author-code oracle and every state.
+
+   Sections, progress, re-entry:       join_one_section_at_a_time, join_choice_advances, ordinary_choice_leaves,
+                                       reentry_restarts
+   What a join choice shows:           join_choice_output (block text ++ text between marker k and marker k+1
+                                       [++ hook text]), between_markers_next / _to_the_end / _absent
+   What it runs:                       join_choice_is_block_then_section_then_hooks (the state transformer, an
+                                       equation), join_choice_log (nothing else is logged, no passage entered,
+                                       position kept), join_block_statements_once (straight-line blocks: the log)
+   Only its own block:                 join_only_own_block
+   What it offers:                     join_choice_offers_next_section
+   As an engine operation:             join_choice_as_engine_operation (restore point, redo, one-time mark, undo)
+   Shapes outside the property's text: join_choice_without_marker, join_choice_after_last_marker_raises,
+                                       join_drops_block_choices_refuted (see the comments there) *)
 From Coq Require Import String Ascii List Bool ZArith Arith.
 From Bardic Require Import PyStr Value Compiled Engine EngineBase EngineNav EngineParams EngineSem EngineJump
-     EngineUndo EngineChoice.
+     EngineUndo EngineHooks EngineChoice EngineJoin.
 Import ListNotations.
 
 (* only the current section's choices are offered: every choice render_passage offers is a candidate of the
@@ -57,6 +70,173 @@ Theorem reentry_restarts : forall orc ctxkeys st f spec vis s s' o,
 Proof. exact goto_rec_join_reset. Qed.
 Print Assumptions reentry_restarts.
 
+(* ---------------------------------------------------------------------------------------------------- *)
+(* the tokens strictly between marker k and marker k+1 of a content list (markers counted from 0):
+   pre holds exactly k markers, then comes marker k, then the marker-free mid, then the next marker ... *)
+Theorem between_markers_next : forall pre k i mid i' rest,
+  count_markers pre = k -> no_marker mid ->
+  between_markers k (pre ++ TJoinMarker i :: mid ++ TJoinMarker i' :: rest) = mid.
+Proof. exact EngineJoin.between_markers_next. Qed.
+Print Assumptions between_markers_next.
+
+(* ... or nothing: when there is no marker k+1 the text runs to the end of the content *)
+Theorem between_markers_to_the_end : forall pre k i mid,
+  count_markers pre = k -> no_marker mid -> between_markers k (pre ++ TJoinMarker i :: mid) = mid.
+Proof. exact between_markers_last. Qed.
+Print Assumptions between_markers_to_the_end.
+
+Theorem between_markers_absent : forall l k, count_markers l <= k -> between_markers k l = [].
+Proof. exact EngineJoin.between_markers_absent. Qed.
+Print Assumptions between_markers_absent.
+
+(* what a successful join choice returns, when the passage has a marker for the section the player is in
+   (k = cur_section s): the text of ONE rendering of the chosen choice's block, started in the state before the
+   choice, then the text of ONE rendering of the tokens between marker k and marker k+1, started where the block
+   ended (a newline is put between the two when the block text does not end with one: join_content), then the
+   turn_end hook text if any.  Directives of both parts are handed on as render directives, a jump met in the
+   section text is reported, and current() afterwards is this result. *)
+Theorem join_choice_output : forall orc ctxkeys st c s s' o p,
+  get_passage st (cur_pid s) = Some p -> cur_section s < count_markers (content p) ->
+  execute_join_choice orc ctxkeys st c s = (s', Ok o) ->
+  exists btxt jb bds s1 ptxt j pds s2 h,
+    render_content orc ctxkeys (ch_block (rc_choice c)) s = (s1, Ok (btxt, jb, bds)) /\
+    render_content orc ctxkeys (between_markers (cur_section s) (content p)) s1 = (s2, Ok (ptxt, j, pds)) /\
+    o_content o = o_content (with_hook_output (mkOut (join_content btxt ptxt) [] "" [] [] None) h) /\
+    o_pid o = cur_pid s /\ o_render o = map dir_as_render bds ++ map dir_as_render pds /\
+    o_input o = [] /\ o_jump o = j /\ out (nc s') = Some o.
+Proof. exact EngineJoin.join_choice_output. Qed.
+Print Assumptions join_choice_output.
+
+(* the usual case (the compiler ends every block line with a newline token): plain concatenation *)
+Theorem join_content_is_concatenation : forall btxt ptxt,
+  ends_with_newline btxt = true -> join_content btxt ptxt = (btxt ++ ptxt)%string.
+Proof. exact join_content_newline. Qed.
+Print Assumptions join_content_is_concatenation.
+
+(* the state transformer of a join choice, as an equation (so it also covers every failing run): render the block
+   once; render the section text once and filter the next section's passage-level choices (section_render); advance
+   the counter; cache the result; run the turn_end hooks.  Nothing else: join_turn mentions no other block, no
+   passage is executed, the position is not assigned. *)
+Theorem join_choice_is_block_then_section_then_hooks : forall orc ctxkeys st c s p,
+  get_passage st (cur_pid s) = Some p ->
+  execute_join_choice orc ctxkeys st c s =
+  bind (join_turn orc ctxkeys p (cur_pid s) c)
+       (fun r => bind (set_out r) (fun _ => after_hooks orc ctxkeys st r)) s.
+Proof. exact execute_join_choice_turn. Qed.
+Print Assumptions join_choice_is_block_then_section_then_hooks.
+
+(* the same in terms of the ghost log: what the turn appends is the log of the one block rendering (lb), of the one
+   section rendering (lm), of the choice texts (lc) and of the hooks (lh); before the hooks no passage is entered
+   and no hook runs; the hooks are exactly those registered when they fire (C09); the position never changes *)
+Theorem join_choice_log : forall orc ctxkeys st c s s' o,
+  execute_join_choice orc ctxkeys st c s = (s', Ok o) ->
+  exists p btxt jb bds s1 toks ptxt j pds s2 chs s3 lb lm lc lh,
+    get_passage st (cur_pid s) = Some p /\
+    render_content orc ctxkeys (ch_block (rc_choice c)) s = (s1, Ok (btxt, jb, bds)) /\
+    join_tokens p (cur_section s) = Ok toks /\
+    render_content orc ctxkeys toks s1 = (s2, Ok (ptxt, j, pds)) /\
+    filter_choices orc ctxkeys (section_cands p (S (cur_section s))) (S (cur_section s)) s2 = (s3, Ok chs) /\
+    log s1 = log s ++ lb /\ log s2 = log s1 ++ lm /\ log s3 = log s2 ++ lc /\
+    log s' = log s ++ lb ++ lm ++ lc ++ lh /\
+    List.Forall low_event (lb ++ lm ++ lc) /\ entered (lb ++ lm ++ lc) = [] /\ hook_runs (lb ++ lm ++ lc) = [] /\
+    hook_runs lh = filter (defined st) (active s3) /\
+    cur (nc s1) = cur (nc s) /\ cur (nc s2) = cur (nc s) /\ cur (nc s3) = cur (nc s) /\ cur (nc s') = cur (nc s).
+Proof. exact EngineJoin.join_choice_log. Qed.
+Print Assumptions join_choice_log.
+
+(* "applying its statements once", literally: when the block and the section text are straight-line (text,
+   {expr}, ~ statements, @py blocks, hook commands, directives) and choice texts are the compiler's pure tokens, the
+   turn logs every statement of the block exactly once in source order, then those of the section text, then the
+   hooks - and nothing else *)
+Theorem join_block_statements_once : forall orc ctxkeys st c s s' o p,
+  get_passage st (cur_pid s) = Some p -> cur_section s < count_markers (content p) ->
+  forallb flat_tok (ch_block (rc_choice c)) = true ->
+  forallb flat_tok (between_markers (cur_section s) (content p)) = true ->
+  List.Forall pure_choice (choices p) ->
+  execute_join_choice orc ctxkeys st c s = (s', Ok o) ->
+  exists r1 s1 r2 s2 lh,
+    render_content orc ctxkeys (ch_block (rc_choice c)) s = (s1, Ok r1) /\
+    render_content orc ctxkeys (between_markers (cur_section s) (content p)) s1 = (s2, Ok r2) /\
+    log s' = log s ++ cmd_events (ch_block (rc_choice c))
+                   ++ cmd_events (between_markers (cur_section s) (content p)) ++ lh /\
+    hook_runs lh = filter (defined st) (active s2).
+Proof. exact join_choice_log_flat. Qed.
+Print Assumptions join_block_statements_once.
+
+(* only that block: replace the blocks of the passage's choices by anything (p' has the same content and the same
+   choices up to their blocks) - the state after the turn is the same and so is the result, up to the block fields
+   carried inside the offered choice records *)
+Theorem join_only_own_block : forall orc ctxkeys p p' pid c s,
+  content p = content p' -> map erase_block (choices p) = map erase_block (choices p') ->
+  fst (join_turn orc ctxkeys p pid c s) = fst (join_turn orc ctxkeys p' pid c s) /\
+  res_map erase_out (snd (join_turn orc ctxkeys p pid c s)) =
+  res_map erase_out (snd (join_turn orc ctxkeys p' pid c s)).
+Proof. exact join_turn_other_blocks. Qed.
+Print Assumptions join_only_own_block.
+
+(* what is offered afterwards: exactly filter_choices of the passage-level choices written in section k+1 (for
+   the compiler's pure choice texts: the enabled ones, by the same formula as C02 offered_exactly_enabled with no
+   block choices); k+1 is the passage's new progress, so the invariant of join_one_section_at_a_time holds again *)
+Theorem join_choice_offers_next_section : forall orc ctxkeys st c s s' o,
+  execute_join_choice orc ctxkeys st c s = (s', Ok o) ->
+  exists p s2 s3,
+    get_passage st (cur_pid s) = Some p /\
+    filter_choices orc ctxkeys (section_cands p (S (cur_section s))) (S (cur_section s)) s2
+      = (s3, Ok (o_choices o)) /\
+    lookup (cur_pid s) (joinidx (nc s')) = Some (S (cur_section s)) /\
+    List.Forall (fun rc => List.In (rc_choice rc) (choices p) /\ ch_section (rc_choice rc) = S (cur_section s))
+                (o_choices o) /\
+    List.Forall (fun rc => exists dt fd, List.In (rc_choice rc, dt, fd) (passage_cands p []) /\
+                                         dir_section (rc_choice rc) fd = S (cur_section s)) (o_choices o) /\
+    (List.Forall pure_choice (choices p) ->
+     s3 = s2 /\
+     o_choices o = map (shown orc ctxkeys s2)
+                       (filter (keep orc ctxkeys s2 (S (cur_section s))) (passage_cands p []))).
+Proof. exact join_choice_offers. Qed.
+Print Assumptions join_choice_offers_next_section.
+
+(* choose(i) on a '-> @join' choice as an engine operation: exactly one restore point is pushed and redo is cleared
+   like for any choice (C04), a one-time join choice is marked used (C02), undo brings the whole core back (progress,
+   variables, marks); when the turn succeeds the player has not moved, the progress went up by exactly one and
+   current() is the returned result *)
+Theorem join_choice_as_engine_operation : forall orc ctxkeys st e i ch,
+  valid_index e i -> nth_error (o_choices (current_out e)) (Z.to_nat i) = Some ch ->
+  ch_target (rc_choice ch) = "@join"%string ->
+  let e' := fst (choose orc ctxkeys st e i) in
+  let pid := match cur (ec e) with Some p => p | None => ""%string end in
+  let idx := match lookup pid (joinidx (ec e)) with Some n => n | None => 0 end in
+  undo_stack e' = push50 (ec e) (undo_stack e) /\ redo_stack e' = [] /\ escopes e' = escopes e /\
+  used (ec e') = (if ch_sticky (rc_choice ch) then used (ec e)
+                  else add_used (choice_id (o_pid (current_out e)) (rc_text ch) "@join") (used (ec e))) /\
+  ec (fst (undo e')) = ec e /\
+  (forall o, snd (choose orc ctxkeys st e i) = Ok o ->
+     cur (ec e') = cur (ec e) /\ lookup pid (joinidx (ec e')) = Some (S idx) /\ out (ec e') = Some o).
+Proof. exact choose_join_engine. Qed.
+Print Assumptions join_choice_as_engine_operation.
+
+(* Two shapes the property's text does not speak about ("a passage divided by @join markers"); the model follows
+   the code.  (a) a '-> @join' choice in a passage without any marker: the whole content is rendered a second time
+   after the block; (b) a '-> @join' choice written after the last marker: the block is rendered (its statements
+   are applied) and then RuntimeError is raised. *)
+Theorem join_choice_without_marker : forall orc ctxkeys st c s s' o p,
+  get_passage st (cur_pid s) = Some p -> count_markers (content p) = 0 ->
+  execute_join_choice orc ctxkeys st c s = (s', Ok o) ->
+  cur_section s = 0 /\
+  exists btxt jb bds s1 ptxt j pds s2 h,
+    render_content orc ctxkeys (ch_block (rc_choice c)) s = (s1, Ok (btxt, jb, bds)) /\
+    render_content orc ctxkeys (content p) s1 = (s2, Ok (ptxt, j, pds)) /\
+    o_content o = o_content (with_hook_output (mkOut (join_content btxt ptxt) [] "" [] [] None) h).
+Proof. exact EngineJoin.join_choice_without_marker. Qed.
+Print Assumptions join_choice_without_marker.
+
+Theorem join_choice_after_last_marker_raises : forall orc ctxkeys st c s p s1 r,
+  get_passage st (cur_pid s) = Some p ->
+  count_markers (content p) <= cur_section s -> 0 < cur_section s ->
+  render_content orc ctxkeys (ch_block (rc_choice c)) s = (s1, Ok r) ->
+  execute_join_choice orc ctxkeys st c s = (s1, Exc RuntimeError).
+Proof. exact join_choice_after_last_marker. Qed.
+Print Assumptions join_choice_after_last_marker_raises.
+
 (* non-vacuity: a passage with one marker; taking the join choice advances to section 1 and shows block + tail *)
 Definition join_story : story :=
   mkStory "J" [("J"%string,
@@ -73,3 +253,133 @@ Example join_example :
   = ("intro"%string, ["a"%string], ("block " ++ String "010"%char "tail")%string, ["leave"%string],
      [("J"%string, 1)]).
 Proof. vm_compute. reflexivity. Qed.
+
+(* ---------------------------------------------------------------------------------------------------- *)
+(* non-vacuity for the theorems above: two markers, three sections, join choices whose blocks hold a statement and
+   text (the block of B does not end with a newline), an ordinary choice, a way back in.  The oracle runs
+   "x=0" and "x+=n" and reads variables. *)
+Definition add_x (n : Z) (c : env) : res env :=
+  match lookup "x"%string c with
+  | Some (VInt z) => Ok (set_key "x"%string (VInt (z + n)) c)
+  | _ => Exc NameError
+  end.
+Definition demo_orc : pyorc :=
+  mkOrc (fun ctx c => if String.eqb c "yes" then Ok (VBool true) else
+                      match lookup c ctx with Some v => Ok v | None => Exc NameError end)
+        (fun c code => if String.eqb code "x=0" then Ok (set_key "x"%string (VInt 0) c)
+                       else if String.eqb code "x+=1" then add_x 1 c
+                       else if String.eqb code "x+=10" then add_x 10 c
+                       else if String.eqb code "x+=100" then add_x 100 c
+                       else Exc SyntaxError)
+        (fun _ _ => Ok ""%string) (fun _ _ => Ok ([], [])).
+Definition nl : string := String "010"%char EmptyString.
+Definition demo_content : list token :=
+  [TText "intro"; TText nl; TJoinMarker 0; TText "mid x="; TExpr "x"; TText nl; TJoinMarker 1;
+   TText "tail x="; TExpr "x"; TText nl].
+Definition demo_passage : passage :=
+  mkPassage "J" [] demo_content
+    [Choice [TText "A"] "@join" "" None true 0 [] [TPyStmt "x+=1"; TText "Block A"; TText nl];
+     Choice [TText "A2"] "@join" "" None false 0 [] [TPyStmt "x+=10"; TText "Block A2"; TText nl];
+     Choice [TText "Leave"] "End" "" None true 0 [] [];
+     Choice [TText "B"] "@join" "" None true 1 [] [TPyStmt "x+=100"; TText "Block B"];
+     Choice [TText "C"] "End" "" None true 2 [] []]
+    [TPyStmt "x=0"] [] [].
+Definition demo_story : story :=
+  mkStory "J" [("J"%string, demo_passage);
+               ("End"%string, mkPassage "End" [] [TText "end"] [Choice [TText "Back"] "J" "" None true 0 [] []] [] [] [])]
+          [] [].
+
+Example between_markers_demo :
+  between_markers 0 demo_content = [TText "mid x="; TExpr "x"; TText nl] /\
+  between_markers 1 demo_content = [TText "tail x="; TExpr "x"; TText nl] /\
+  between_markers 2 demo_content = [] /\ count_markers demo_content = 2.
+Proof. repeat split. Qed.
+
+Definition view (e : estate) :=
+  (o_content (current_out e), map rc_text (o_choices (current_out e)), lookup "x"%string (vars (ec e)),
+   joinidx (ec e), cur (ec e)).
+Definition stmt_count (code : string) (e : estate) : nat :=
+  List.length (filter (fun ev => match ev with EvStmt c => String.eqb c code | _ => false end) (elog e)).
+
+Example join_walk :
+  let e0 := fst (init demo_orc [] demo_story []) in
+  let e1 := fst (choose demo_orc [] demo_story e0 0) in      (* A: block "x+=1", then the text after marker 0 *)
+  let e2 := fst (choose demo_orc [] demo_story e1 0) in      (* B: block "x+=100", then the text after marker 1 *)
+  let e3 := fst (choose demo_orc [] demo_story e2 0) in      (* C: an ordinary choice leaves *)
+  let e4 := fst (choose demo_orc [] demo_story e3 0) in      (* Back: the passage starts again *)
+  view e0 = (("intro" ++ nl)%string, ["A"; "A2"; "Leave"]%string, Some (VInt 0), [("J"%string, 0)], Some "J"%string) /\
+  view e1 = (("Block A" ++ nl ++ "mid x=1" ++ nl)%string, ["B"%string], Some (VInt 1), [("J"%string, 1)], Some "J"%string) /\
+  view e2 = (("Block B" ++ nl ++ "tail x=101" ++ nl)%string, ["C"%string], Some (VInt 101), [("J"%string, 2)],
+             Some "J"%string) /\
+  view e3 = ("end"%string, ["Back"%string], Some (VInt 101), [("J"%string, 2); ("End"%string, 0)], Some "End"%string) /\
+  view e4 = (("intro" ++ nl)%string, ["A"; "A2"; "Leave"]%string, Some (VInt 0), [("J"%string, 0); ("End"%string, 0)],
+             Some "J"%string) /\
+  (* each block statement ran once, the other choice's block never, and no passage was entered by the join turns *)
+  (stmt_count "x+=1" e2, stmt_count "x+=10" e2, stmt_count "x+=100" e2, entered (elog e2)) = (1, 0, 1, ["J"%string]) /\
+  (* restore points and undo *)
+  (List.length (undo_stack e1), redo_stack e1, ec (fst (undo e1))) = (1, [], ec e0).
+Proof. vm_compute. repeat split. Qed.
+
+(* the one-time join choice A2: marked used, shown in section 0 no more after coming back *)
+Example join_one_time :
+  let e0 := fst (init demo_orc [] demo_story []) in
+  let e1 := fst (choose demo_orc [] demo_story e0 1) in      (* A2 *)
+  let e2 := fst (choose demo_orc [] demo_story e1 0) in      (* B *)
+  let e3 := fst (choose demo_orc [] demo_story e2 0) in      (* C *)
+  let e4 := fst (choose demo_orc [] demo_story e3 0) in      (* Back *)
+  view e1 = (("Block A2" ++ nl ++ "mid x=10" ++ nl)%string, ["B"%string], Some (VInt 10), [("J"%string, 1)],
+             Some "J"%string) /\
+  used (ec e1) = ["J:A2:@join"%string] /\
+  map rc_text (o_choices (current_out e4)) = ["A"; "Leave"]%string.
+Proof. vm_compute. repeat split. Qed.
+
+(* (a) and (b) above, concretely *)
+Definition nomarker_story : story :=
+  mkStory "N" [("N"%string, mkPassage "N" [] [TText "all"; TText nl]
+                 [Choice [TText "a"] "@join" "" None true 0 [] [TText "blk"; TText nl]] [] [] [])] [] [].
+Definition lastsec_story : story :=
+  mkStory "L" [("L"%string, mkPassage "L" [] [TText "one"; TJoinMarker 0; TText "two"]
+                 [Choice [TText "a"] "@join" "" None true 0 [] [];
+                  Choice [TText "b"] "@join" "" None true 1 [] [TPyStmt "x=0"]] [] [] [])] [] [].
+Example join_without_marker_demo :
+  let e0 := fst (init demo_orc [] nomarker_story []) in
+  let e1 := fst (choose demo_orc [] nomarker_story e0 0) in
+  (o_content (current_out e1), o_choices (current_out e1)) = (("blk" ++ nl ++ "all" ++ nl)%string, []).
+Proof. vm_compute. reflexivity. Qed.
+Example join_after_last_marker_demo :
+  let e0 := fst (init demo_orc [] lastsec_story []) in
+  let e1 := fst (choose demo_orc [] lastsec_story e0 0) in
+  let r2 := choose demo_orc [] lastsec_story e1 0 in
+  (match snd r2 with Exc RuntimeError => true | _ => false end, lookup "x"%string (vars (ec (fst r2))))
+  = (true, Some (VInt 0)).
+Proof. vm_compute. reflexivity. Qed.
+
+(* Where the model (and the code it follows, bardic/runtime/engine.py _render_from_join_marker) departs from
+   "advances to the next section's choices": a choice that stands inside an @if/@for block of a later section is
+   produced by the rendering of that section's text but is NOT offered - it is handed on as a render directive.
+   The full statement would be: the offered choices are filter_choices of (section_cands p (k+1) ++ the block
+   choices among pds); the witness below refutes it.  Reported as a finding, candidate patch in
+   /verif/proposed_fixes/F10d-join-section-block-choices.diff. *)
+Definition cond_choice : choice := Choice [TText "cond"] "End" "" None true 0 [] [].
+Definition drop_passage : passage :=
+  mkPassage "D" [] [TText "intro"; TJoinMarker 0; TText "mid"; TCond [Branch "yes" [TText "!"] [cond_choice]]]
+            [Choice [TText "a"] "@join" "" None true 0 [] []] [] [] [].
+Definition drop_story : story :=
+  mkStory "D" [("D"%string, drop_passage); ("End"%string, mkPassage "End" [] [TText "end"] [] [] [] [])] [] [].
+Definition drop_e0 : estate := fst (init demo_orc [] drop_story []).
+Theorem join_drops_block_choices_refuted :
+  exists orc st e ch p s1 txt j,
+    nth_error (o_choices (current_out e)) 0 = Some ch /\ ch_target (rc_choice ch) = "@join"%string /\
+    get_passage st "D" = Some p /\ cur (ec e) = Some "D"%string /\
+    (* the section text produces an enabled block choice ... *)
+    render_content orc [] (between_markers 0 (content p)) (nstate_of e) = (s1, Ok (txt, j, [DChoice cond_choice None])) /\
+    enabled orc [] s1 cond_choice None = true /\
+    (* ... and the turn offers nothing, handing the choice on as a render directive *)
+    o_choices (current_out (fst (choose orc [] st e 0))) = [] /\
+    o_render (current_out (fst (choose orc [] st e 0))) = [RDError "choice" ""].
+Proof.
+  exists demo_orc, drop_story, drop_e0, (mkRC "a" (Choice [TText "a"] "@join" "" None true 0 [] [])), drop_passage,
+         (nstate_of drop_e0), "mid!"%string, None.
+  vm_compute. repeat split.
+Qed.
+Print Assumptions join_drops_block_choices_refuted.
